@@ -221,7 +221,7 @@ int worker_main(std::string const& prop, int tier, u64 seed, u64 start, u64 stri
 
         Plan const p = plan_for(*ps, tier, seed, idx);
         spit(inflight, p.to_text());
-        alarm(300);   // watchdog: a run that does not come back is a result (SIGALRM ends the worker)
+        alarm(900);   // watchdog: a run that does not come back is a result (SIGALRM ends the worker)
         std::fprintf(out, "B %llu\n", (unsigned long long) idx);
         std::fflush(out);
 
